@@ -13,8 +13,10 @@ RULES = {
     'R3': 'where rm defers unlinking to the last dereference and lookups do not test liveness, every iterator exit (iter_free on a parked iterator) drops the node reference',
     'R4': 'skiplist take-over: predecessor forward array freed only after its contents were copied to the removed node; a taken-over array is not freed again unless tearing down',
     'R5': 'qb_map_foreach frees its iterator on every path; iter_create starts unparked or referenced',
+    'R6': 'iter_create stores no unreferenced node pointer in the iterator: every node-pointer field is NULL, the map header (never freed), or referenced before the function returns',
+    'R7': 'a node that iterators may be parked on stays linked while referenced: where the advance follows the parked node\'s own links (hashtable), the node is unlinked only at its last dereference (in the destroy function reached with refcount 0) or at map teardown',
 }
-FLOORS = {'R1': 6, 'R2': 3, 'R3': 2, 'R4': 4, 'R5': 2}
+FLOORS = {'R1': 6, 'R2': 3, 'R3': 2, 'R4': 4, 'R5': 2, 'R6': 4, 'R7': 2}
 
 IT = {
     'hashtable': dict(next='hashtable_iter_next', free='hashtable_iter_free', deref='hashtable_node_deref', node='hash_node',
@@ -42,6 +44,8 @@ def run(ctx):
     r2(ctx)
     r4(ctx)
     r5(ctx)
+    r6(ctx)
+    r7(ctx)
 
 
 def r1(ctx, name, m):
@@ -236,3 +240,85 @@ def r5(ctx):
     mf = prog.fn('qb_map_iter_free')
     calls = list(mf.calls('qb_map::iter_free'))
     ctx.check('R5', 'iter_free-dispatch', len(calls) == 1, mf, 'qb_map_iter_free dispatches to the implementation', 'qb_map_iter_free does not call the implementation')
+
+
+CREATE = {'hashtable': 'hashtable_iter_create', 'skiplist': 'skiplist_iter_create', 'trie': 'trie_iter_create'}
+
+
+def r6(ctx):
+    prog = ctx.prog
+    for name, m in IT.items():
+        f = prog.fn(CREATE[name])
+        irec = m['cur'][0]
+        rec = prog.record(irec)
+        nodeptr = 'struct %s *' % m['node']
+        nfields = [fl['n'] for fl in rec['fields'] if fl['ty'] == nodeptr]
+        if not nfields:
+            raise AnalysisBroken('%s: no node pointer field in %s' % (name, irec))
+        for fld in nfields:
+            sts = [st for st in f.events('STORE') if last_field(st.lhs) == (irec, fld)]
+            if not sts:
+                ctx.check('R6', '%s:%s-initialised' % (name, fld), False, f, '', '%s leaves %s.%s uninitialised' % (f.name, irec, fld))
+                continue
+            for st in sts:
+                r = unwrap(st.rhs)
+                lf = last_field(r)
+                safe = cval(r) == 0 or (lf is not None and lf[1] == 'header')
+                if not safe:
+                    # referenced before every return?
+                    incs = [ev for ev in f.events() if _is_inc(ev, m) and f.may_follow(st, ev)]
+                    rets = [x for x in f.returns() if f.may_follow(st, x)]
+                    safe = bool(incs) and all(any(f.ev_dominates(i, x) for i in incs) for x in rets)
+                else:
+                    # the header: either never freed (no reference needed) or referenced - both fine
+                    pass
+                ctx.check('R6', '%s:%s' % (name, fld), safe, st, '%s.%s starts as NULL / the map header / a referenced node' % (irec, fld),
+                          '%s stores %s in %s.%s without a reference: removing that node before the first advance leaves the iterator with a dangling pointer' % (f.name, estr(st.rhs), irec, fld))
+
+
+def r7(ctx):
+    prog = ctx.prog
+    m = IT['hashtable']
+    nxt = prog.fn(m['next'])
+    # does the advance continue from the parked node's own links?
+    follows = any(last_field(ev.e) == ('qb_list_head', 'next') for ev in nxt.events('LOAD')) or \
+        any(n.get('k') == 'mem' and n.get('f') == 'list' and n.get('rec') == m['node'] for ev in nxt.events() for root in (ev.e, ev.rhs) if root is not None for n in walk(root))
+    if not follows:
+        ctx.note('hashtable_iter_next no longer follows the parked node\'s list links: R7 has nothing to require')
+        ctx.ok('R7', 'hashtable:advance-independent-of-node-links', nxt, 'the advance does not use the parked node\'s links')
+        ctx.ok('R7', 'hashtable:unlink-sites', nxt, 'not required')
+        return
+    sites = []
+    for f in prog.all_fns():
+        if not f.file.endswith('hashtable.c'):
+            continue
+        for ev in f.calls('qb_list_del'):
+            if any(n.get('k') == 'mem' and n.get('f') == 'list' and n.get('rec') == m['node'] for n in walk(ev.args[0])):
+                sites.append((f, ev))
+    if not sites:
+        raise AnalysisBroken('hashtable: no unlink of a hash node found')
+    deref = prog.fn(m['deref'])
+    for (f, ev) in sites:
+        ok = False
+        why = ''
+        if f.name == m['destroy']:
+            # every caller reaches destroy only with the count at zero (deref's early return on refcount > 0) or is the map teardown
+            callers = [(g, c) for (g, c) in prog.callers_of(m['destroy'])]
+            ok = bool(callers)
+            for (g, c) in callers:
+                if g.name == m['deref']:
+                    def zero(a, fb):
+                        return field_is(a.l, 'refcount', m['node']) and ((a.op == '<=' and a.rc == 0) or (a.op == '==' and a.rc == 0) or (a.op == '<' and a.rc == 1))
+                    if g.uncut_path(c, zero) is not None:
+                        ok = False
+                        why = '%s calls it without refcount having reached 0' % g.name
+                elif g.name in ('hashtable_destroy',):
+                    pass
+                else:
+                    ok = False
+                    why = 'called from %s' % g.name
+        else:
+            why = 'unlinked in %s, where iterators may still hold a reference' % f.name
+        ctx.check('R7', 'hashtable:unlink-only-at-last-deref:%s' % f.name, ok, ev, 'the node leaves its bucket list only when its last reference is dropped',
+                  'a hash node is unlinked while iterators may be parked on it (%s): the advance then follows stale links into freed nodes' % why)
+    ctx.check('R7', 'hashtable:unlink-sites', True, sites[0][1], '%d unlink site(s)' % len(sites), '')
